@@ -41,6 +41,61 @@ def _is_constant_text(e) -> bool:
     return False
 
 
+def _single_assignment(name, func):
+    vals = [
+        n.value
+        for n in ast.walk(func)
+        if isinstance(n, ast.Assign) and len(n.targets) == 1 and isinstance(n.targets[0], ast.Name) and n.targets[0].id == name
+    ]
+    return vals[0] if len(vals) == 1 else None
+
+
+def _manual_escape_ok(pattern, esc, call):
+    """pattern = concatenation of string constants and chains V.replace(E, EE).replace('%', E%).replace('_', E_)
+    where the escape character itself is replaced FIRST (otherwise a value ending in / containing E corrupts the
+    escaping of what follows) and both wildcards are replaced."""
+    from ..source import enclosing_function
+
+    if pattern is None or not (isinstance(esc, ast.Constant) and isinstance(esc.value, str) and len(esc.value) == 1):
+        return False, "with an escape= that is not a one-character constant"
+    E = esc.value
+    func = enclosing_function(call)
+
+    def part_ok(e, depth=0):
+        if isinstance(e, ast.Constant) and isinstance(e.value, str):
+            return True, ""
+        if isinstance(e, ast.BinOp) and isinstance(e.op, ast.Add):
+            for x in (e.left, e.right):
+                ok, why = part_ok(x, depth)
+                if not ok:
+                    return ok, why
+            return True, ""
+        if isinstance(e, ast.Name) and func is not None and depth < 4:
+            v = _single_assignment(e.id, func)
+            if v is not None:
+                return part_ok(v, depth + 1)
+            return False, f"from the unescaped value `{e.id}` (escape={E!r} only names the escape character)"
+        pairs = []
+        cur = e
+        while isinstance(cur, ast.Call) and isinstance(cur.func, ast.Attribute) and cur.func.attr == "replace" and len(cur.args) == 2:
+            a, b = cur.args
+            if not (isinstance(a, ast.Constant) and isinstance(b, ast.Constant)):
+                return False, "with a non-constant replace()"
+            pairs.append((a.value, b.value))
+            cur = cur.func.value
+        pairs.reverse()
+        if not pairs:
+            return False, f"from the unescaped value `{norm(e)[:40]}`"
+        if pairs[0] != (E, E + E):
+            return False, f"whose hand-written escaping does not escape the escape character {E!r} first"
+        for w in ("%", "_"):
+            if (w, E + w) not in pairs:
+                return False, f"whose hand-written escaping does not escape {w!r}"
+        return True, ""
+
+    return part_ok(pattern)
+
+
 def run(chk):
     repo = chk.repo
     chk.explanation = (
@@ -76,10 +131,14 @@ def run(chk):
                     continue
                 n_like += 1
                 esc = kwarg(c, "autoescape")
-                good = (esc is not None and isinstance(esc, ast.Constant) and esc.value is True) or kwarg(c, "escape") is not None
+                good = esc is not None and isinstance(esc, ast.Constant) and esc.value is True
+                why = "without autoescape"
+                if not good and kwarg(c, "escape") is not None:
+                    # hand-written escaping: decided by a small string-transformer analysis of the pattern
+                    good, why = _manual_escape_ok(c.args[0] if c.args else None, kwarg(c, "escape"), c)
                 chk.ob(
                     "R1", mod, c, f"{qual_of(c)}: {norm(c)[:120]}", good,
-                    f"`{norm(c)[:90]}` builds a LIKE pattern without autoescape: `%`, `_` and the escape character in "
+                    f"`{norm(c)[:90]}` builds a LIKE pattern {why}: `%`, `_` or the escape character in "
                     "the Python value act as wildcards",
                 )  # fmt: skip
             # ---- R2
@@ -172,8 +231,16 @@ def run(chk):
                             "sqa.literal(.., literal_execute=True) / sqa.cast(value, ..)",
                         )  # fmt: skip
                     if not uses:
-                        # returns that do not mention the value (nan()/inf()/super()) are fine
-                        chk.ok("R3", mod, r, f"{q}: {norm(r)[:140]}", "no Python value involved")
+                        # returns that do not mention the value (nan()/inf()/super()) are fine - except the SQL NULL
+                        # keyword object: SQLAlchemy rewrites `x == null()` / `x != null()` into IS [NOT] NULL, so a
+                        # null literal would stop behaving like data (a comparison with it must yield NULL)
+                        kw_null = any(
+                            isinstance(c2, ast.Call) and (dotted(c2.func) or "").split(".")[-1] in ("null", "Null")
+                            for c2 in ast.walk(r.value)
+                        ) or (isinstance(r.value, ast.Constant) and r.value.value is None)
+                        chk.ob("R3", mod, r, f"{q}: {norm(r)[:140]}", not kw_null,
+                               f"compile_lit returns the SQL NULL keyword object (`{norm(r.value)[:60]}`) instead of a typed bound literal: "
+                               "SQLAlchemy turns `col == <null()>` into `col IS NULL`, the null literal is no longer compared as data")  # fmt: skip
     chk.floor("R1", "LIKE-family call sites", n_like, 11)
     chk.floor("R2", "raw-text call sites", n_raw, 14)
     chk.floor("R3", "compile_lit definitions", n_lit, 2)
